@@ -1,4 +1,6 @@
 import IdspModel
+import IdspModel.DriverF
+import IdspModel.Model.BiquadF
 /-!
   Line-protocol driver.  One request per line:
 
@@ -192,6 +194,95 @@ def evalOp (st : DState) (m : Mode) (op : String) (a : List Tok) : Option (DStat
                      else hbfIntResponseLength (ms.map Int.toNat) depth.toNat))
   | _, _ => Option.none
 
+/-! ### float ops: the driver does the comparison itself (bit patterns in, tolerance compare) -/
+def bops32 : BOps Float32 :=
+  { zero := 0, add := (· + ·), sub := (· - ·), mul := (· * ·),
+    max := fun a b => if a < b then b else a, min := fun a b => if b < a then b else a }
+def bops64 : BOps Float :=
+  { zero := 0, add := (· + ·), sub := (· - ·), mul := (· * ·),
+    max := fun a b => if a < b then b else a, min := fun a b => if b < a then b else a }
+
+def f32eq (a b : Float32) : Bool := a == b || (a.isNaN && b.isNaN)
+def f64eq (a b : Float) : Bool := a == b || (a.isNaN && b.isNaN)
+
+def optInf (v : Float) : Option Float := if v.isInf then none else some v
+
+/-- returns (agrees, model rendering) -/
+def evalApprox (op : String) (a : List Tok) (rhs : List Tok) : Option (Bool × String) :=
+  match op, a, rhs with
+  | "f_bq4", [.int t, .list [b0, b1, b2, a1, a2, u, mn, mx], .list [x1, x2, y1, y2], .int x0], [.list [p, q, r, s'], .int y] =>
+    if t == 32 then
+      let c : FBiquadCfg Float32 := ⟨f32 b0, f32 b1, f32 b2, f32 a1, f32 a2, f32 u, f32 mn, f32 mx⟩
+      let ((m0, m1, m2, m3), my) := fbiquadUpdate4 bops32 c (f32 x1, f32 x2, f32 y1, f32 y2) (f32 x0)
+      some (f32eq m0 (f32 p) && f32eq m1 (f32 q) && f32eq m2 (f32 r) && f32eq m3 (f32 s') && f32eq my (f32 y),
+        s!"{showList [b32 m0, b32 m1, b32 m2, b32 m3]} {b32 my}")
+    else
+      let c : FBiquadCfg Float := ⟨f64 b0, f64 b1, f64 b2, f64 a1, f64 a2, f64 u, f64 mn, f64 mx⟩
+      let ((m0, m1, m2, m3), my) := fbiquadUpdate4 bops64 c (f64 x1, f64 x2, f64 y1, f64 y2) (f64 x0)
+      some (f64eq m0 (f64 p) && f64eq m1 (f64 q) && f64eq m2 (f64 r) && f64eq m3 (f64 s') && f64eq my (f64 y),
+        s!"{showList [b64 m0, b64 m1, b64 m2, b64 m3]} {b64 my}")
+  | "f_bq5", [.int t, .list [b0, b1, b2, a1, a2, u, mn, mx], .list [x1, x2, y1, y2, e1], .int x0], [.list [p, q, r, s', e], .int y] =>
+    if t == 32 then
+      let c : FBiquadCfg Float32 := ⟨f32 b0, f32 b1, f32 b2, f32 a1, f32 a2, f32 u, f32 mn, f32 mx⟩
+      let ((m0, m1, m2, m3, m4), my) := fbiquadUpdate5 bops32 c (f32 x1, f32 x2, f32 y1, f32 y2, f32 e1) (f32 x0)
+      some (f32eq m0 (f32 p) && f32eq m1 (f32 q) && f32eq m2 (f32 r) && f32eq m3 (f32 s') && f32eq m4 (f32 e) && f32eq my (f32 y),
+        s!"{showList [b32 m0, b32 m1, b32 m2, b32 m3, b32 m4]} {b32 my}")
+    else
+      let c : FBiquadCfg Float := ⟨f64 b0, f64 b1, f64 b2, f64 a1, f64 a2, f64 u, f64 mn, f64 mx⟩
+      let ((m0, m1, m2, m3, m4), my) := fbiquadUpdate5 bops64 c (f64 x1, f64 x2, f64 y1, f64 y2, f64 e1) (f64 x0)
+      some (f64eq m0 (f64 p) && f64eq m1 (f64 q) && f64eq m2 (f64 r) && f64eq m3 (f64 s') && f64eq m4 (f64 e) && f64eq my (f64 y),
+        s!"{showList [b64 m0, b64 m1, b64 m2, b64 m3, b64 m4]} {b64 my}")
+  | "f_bq2", [.int t, .list [b0, b1, b2, a1, a2, u, mn, mx], .list [s0, s1], .int x0], [.list [p, q], .int y] =>
+    if t == 32 then
+      let c : FBiquadCfg Float32 := ⟨f32 b0, f32 b1, f32 b2, f32 a1, f32 a2, f32 u, f32 mn, f32 mx⟩
+      let ((m0, m1), my) := fbiquadUpdate2 bops32 c (f32 s0, f32 s1) (f32 x0)
+      some (f32eq m0 (f32 p) && f32eq m1 (f32 q) && f32eq my (f32 y), s!"{showList [b32 m0, b32 m1]} {b32 my}")
+    else
+      let c : FBiquadCfg Float := ⟨f64 b0, f64 b1, f64 b2, f64 a1, f64 a2, f64 u, f64 mn, f64 mx⟩
+      let ((m0, m1), my) := fbiquadUpdate2 bops64 c (f64 s0, f64 s1) (f64 x0)
+      some (f64eq m0 (f64 p) && f64eq m1 (f64 q) && f64eq my (f64 y), s!"{showList [b64 m0, b64 m1]} {b64 my}")
+  | "f_coeff", [.int typ, .int sk, .int sv, .int fr, .int g, .int sh], [.list [r0, r1, r2, r3, r4, r5]] =>
+    let cfg : FilterCfg Float := ⟨fOfBits fr, fOfBits g, fOfBits sh, shapeOf sk (fOfBits sv)⟩
+    let ((b0, b1, b2), (a0, a1, a2)) := cfg.build floatOps typ.toNat
+    let m := [b0, b1, b2, a0, a1, a2]
+    let e := [r0, r1, r2, r3, r4, r5].map fOfBits
+    -- tolerance relative to the largest coefficient of the same polynomial (cancellation in small ones)
+    let sb := (m.take 3).foldl (fun acc v => if v.abs > acc then v.abs else acc) 0
+    let sa := (m.drop 3).foldl (fun acc v => if v.abs > acc then v.abs else acc) 0
+    let ok := (List.zip m e).zipIdx.all fun ((x, y), i) =>
+      let sc := if i < 3 then sb else sa
+      (x.isNaN && y.isNaN) || x == y || (x - y).abs ≤ 1e-11 * sc || (x.isInf && y.isInf && (x > 0) == (y > 0))
+    some (ok, showList (m.map fToBits))
+  | "f_from_ba", [.int w, .int q, .list [b0, b1, b2, a0, a1, a2]], [.list r] =>
+    let ba : BA Float := ((fOfBits b0, fOfBits b1, fOfBits b2), (fOfBits a0, fOfBits a1, fOfBits a2))
+    let (c0, c1, c2, c3, c4) := biquadFromBa floatOps (quantizeInt w.toNat q.toNat) ba
+    let m := [c0, c1, c2, c3, c4]
+    some (m == r, showList m)
+  | "f_pid", [.int w, .int q, .int period, .int order, .list gains, .list limits], [.list r] =>
+    let lim := limits.map fun v => optInf (fOfBits v)
+    let g := gains.map fOfBits
+    if w == 0 then
+      -- f64 coefficients
+      let (c0, c1, c2, c3, c4) := pidBuild floatOps (fun x => x) (0 : Float) (· + ·) (fun k x => Float.ofInt k * x)
+        (fOfBits period) order.toNat g lim
+      let m := [c0, c1, c2, c3, c4]
+      let e := r.map fOfBits
+      let sc := m.foldl (fun acc v => if v.abs > acc then v.abs else acc) 1e-300
+      let ok := m.length == e.length && (List.zip m e).all fun (x, y) =>
+        (x.isNaN && y.isNaN) || x == y || (x - y).abs ≤ 1e-12 * sc
+      some (ok, showList (m.map fToBits))
+    else
+      let (c0, c1, c2, c3, c4) := pidBuild floatOps (quantizeInt w.toNat q.toNat) (0 : Int) (· + ·) (fun k x => k * x)
+        (fOfBits period) order.toNat g lim
+      let m := [c0, c1, c2, c3, c4]
+      -- a quantisation tie may fall on the other side when `powi` rounds differently: allow 3 LSB on b, exact on a
+      -- whenever no limit is set (integrator kernel)
+      let nolim := lim.all (·.isNone)
+      let ok := m.length == r.length && (List.zip m r).zipIdx.all fun ((x, y), i) =>
+        if i ≥ 3 && nolim then x == y else (x - y).natAbs ≤ 3 + x.natAbs / 2 ^ 48
+      some (ok, showList m)
+  | _, _, _ => none
+
 structure Stats where
   total : Nat := 0
   mismatches : Nat := 0
@@ -217,6 +308,18 @@ def stepLine (st : DState) (stats : Stats) (lineNo : Nat) (line : String) : DSta
       let m := if ms == "C" then Mode.checked else Mode.release
       match args.mapM parseTok with
       | some toks =>
+        if op.startsWith "f_" then
+          match (rhs.splitOn " ").mapM parseTok with
+          | some rt =>
+            match evalApprox op toks rt with
+            | some (ok, out) =>
+              let stats := stats.bump op false
+              if ok then (st, stats, none)
+              else (st, { stats with mismatches := stats.mismatches + 1 },
+                    some s!"MISMATCH line={lineNo} model=<{out}> :: {line}")
+            | none => (st, { stats with unparsed := stats.unparsed + 1 }, some s!"UNPARSED line={lineNo} :: {line}")
+          | none => (st, { stats with unparsed := stats.unparsed + 1 }, some s!"UNPARSED line={lineNo} :: {line}")
+        else
         match evalOp st m op toks with
         | some (st', out) =>
           let stats := stats.bump op (rhs == "PANIC")
